@@ -57,6 +57,25 @@ class Program:
             if mod == 'lib': mod = ''
             for m in re.finditer(r'^\s*(?:pub(?:\([^)]*\))? )?(enum|struct) (\w+)', src, re.M):
                 seen.setdefault(m.group(2), set()).add(mod)
+            for m in re.finditer(r'\bstruct (\w+)\s*(?:<[^>]*>)?\s*\{(.*?)\n\}', src, re.S):
+                body = re.sub(r'//[^\n]*', '', m.group(2))
+                body = re.sub(r'#\[[^\]]*\]', '', body)
+                fields, depth, cur = [], 0, ''
+                for ch in body:
+                    if ch in '({[<': depth += 1
+                    elif ch in ')}]>': depth -= 1
+                    if ch == ',' and depth == 0:
+                        fields.append(cur); cur = ''
+                    else:
+                        cur += ch
+                fields.append(cur)
+                names = []
+                for fdecl in fields:
+                    fm = re.match(r'\s*(?:pub(?:\([^)]*\))?\s+)?(\w+)\s*:\s*(.*)', fdecl, re.S)
+                    if fm: names.append((fm.group(1), ' '.join(fm.group(2).split())))
+                last = mod.split('::')[-1] if mod else ''
+                s.structs[(last + '::' if last else '') + m.group(1)] = names
+                s.structs.setdefault(m.group(1), names)
             for m in re.finditer(r'\benum (\w+)\s*(?:<[^>]*>)?\s*\{(.*?)\n\}', src, re.S):
                 body = re.sub(r'//[^\n]*', '', m.group(2))
                 body = re.sub(r'#\[[^\]]*\]', '', body)
@@ -129,7 +148,8 @@ class Program:
                 tys = [mod + '::' + ty]
             for t in tys:
                 if trait:
-                    tr = re.sub(r'\s', '', trait)
+                    tr = re.sub(r"'\w+\s*", '', trait)
+                    tr = re.sub(r'\s', '', tr)
                     tr = re.sub(r'^(?:\w+::)+(?=\w+(?:<|$))', '', tr)
                     s.index.setdefault('<%s%s as %s>::%s' % (amp, t, tr, meth), name)
                     s.index.setdefault('<%s%s as %s>::%s' % (amp, t, re.sub(r'<.*', '', tr), meth), name)
@@ -1122,16 +1142,32 @@ class Interp:
 
     def dyn_dispatch(s, trait, meth, args):
         """generic callee `<T as Trait>::m`: resolve on the run-time type tag of the receiver"""
-        v = args[0]
+        v0 = args[0]
+        is_ref = isinstance(v0, Ref)
+        v = v0
         while isinstance(v, Ref): v = v.get()
         ty = s.type_tag(v)
         h = s.prog.dyn_models.get((trait, meth)) if hasattr(s.prog, 'dyn_models') else None
         if h is not None:
             r = h(s, ty, args)
             if r is not NotImplemented: return r
-        name = s.prog.resolve_crate('<%s as %s>::%s' % (ty, trait, meth))
+        m = re.match(r'Into<(.*)>$', trait)
+        if m and meth == 'into':
+            tgt = s.prog.short_ty(m.group(1))
+            cands = []
+            if is_ref: cands.append('<%s as From<&%s>>::from' % (tgt, ty))
+            else: cands.append('<%s as From<%s>>::from' % (tgt, ty))
+            for k in cands:
+                if k in s.prog.index: return s.call(s.prog.index[k], args)
+            if tgt == ty and not is_ref: return v0
+            if tgt == 'Cow': return Agg('Cow', 0 if is_ref else 1, [v0])
+            if ty in ('int', 'bool') and tgt in INT_TYPES: return v0
+        name = s.prog.resolve_crate('<%s%s as %s>::%s' % ('&' if is_ref else '', ty, trait, meth))
         if name: return s.call(name, args)
-        raise Unsupported('dyn call <%s as %s>::%s' % (ty, trait, meth))
+        if is_ref:
+            name = s.prog.resolve_crate('<%s as %s>::%s' % (ty, trait, meth))
+            if name: return s.call(name, args)
+        raise Unsupported('dyn call <%s%s as %s>::%s' % ('&' if is_ref else '', ty, trait, meth))
 
     def type_tag(s, v):
         if isinstance(v, Agg): return v.ty
